@@ -2,28 +2,11 @@
    the aggregate requests as unions of per-backend contributions (T4/T5b), the mixer (T6). *)
 From Coq Require Import ZArith List Bool Lia Arith.
 From Common Require Import Res.
-From Routing Require Import Model Proofs_Tables Proofs_Group Proofs_Merge Proofs_Library Proofs_Ops.
+From Routing Require Import Model Scheme Obs Spec Proofs_Tables Proofs_Group Proofs_Merge Proofs_Library Proofs_Ops.
 Import ListNotations.
 Open Scope Z_scope.
 
-(* which provider a method belongs to *)
-Definition flag_of (m : meth) : backend -> bool :=
-  match m with
-  | MBrowse | MRoot => b_browse
-  | PAsList | PGetItems | PLookup | PCreate | PSave | PDelete | PRefresh => b_playlists
-  | _ => b_lib
-  end.
 
-(* the URIs a provider is handed *)
-Definition arg_uris (a : arg) : list uri :=
-  match a with
-  | AUris l => l
-  | ASearch _ (Some l) _ => l
-  | AUri u => [u]
-  | AOptUri (Some u) => [u]
-  | APlaylist u _ => [u]
-  | _ => []
-  end.
 
 Section WithTables.
   Variable P : list backend.
@@ -170,17 +153,6 @@ Section WithTables.
     - unfold set_mute in H. destruct mx; injection H as <- <-; [destruct Hin as [[=]|[]]|contradiction].
   Qed.
 
-  (* T3 for the requests that name one URI: without an owner no provider is asked and the
-     answer is the empty one (or the caller's URI is rejected) *)
-  Definition single_uri_op (o : op) : option (uri * (backend -> bool) * value) :=
-    match o with
-    | OBrowse (BUri u) => Some (u, b_browse, VList [])
-    | OGetItems u => Some (u, b_playlists, VNone)
-    | OPlLookup u => Some (u, b_playlists, VNone)
-    | OSave (Some u) _ => Some (u, b_playlists, VNone)
-    | ODelete u => Some (u, b_playlists, VBool false)
-    | _ => None
-    end.
 
   Theorem single_unknown_empty mx o u flag empty :
     single_uri_op o = Some (u, flag, empty) ->
@@ -206,10 +178,30 @@ Section WithTables.
   Qed.
 End WithTables.
 
-(* ------------------------------------------------------------------ aggregate requests *)
 
-Definition search_contrib (r : resp) : list entry :=
-  match r with RVal CSearch id => [EObj CSearch id true] | _ => [] end.
+(* which methods a request kind invokes, and on whom (mixer methods on the mixer only) *)
+Theorem log_methods T P mx o log out :
+  run_op T P mx o = (log, out) ->
+  forall w m a, In (w, m, a) log -> In m (op_meths o) /\ (w = Mx <-> is_mixer_meth m = true).
+Proof.
+  intros H w m a Hin.
+  assert (Hb : forall b : nat, (Bk b = Mx <-> false = true)) by (intros b; split; discriminate).
+  assert (Hm : (Mx = Mx <-> true = true)) by tauto.
+  destruct o; cbn [run_op] in H.
+  12: { (* create *) unfold create in H.
+        destruct (match s with Some s0 => tget (t_playlists T) s0 | None => None end);
+          destruct (create_loop_log P n _ _ _ _ H Hin) as (b1 & _ & [= -> -> ->]); cbn; auto. }
+  all: unfold lookup, get_images, merge_request, search, browse, get_distinct, refresh, get_uri_schemes, as_list,
+       get_items, pl_lookup, save, delete, pl_refresh, get_volume, set_volume, get_mute, set_mute in H; cbv zeta in H.
+  all: repeat match type of H with
+              | (if ?c then _ else _) = _ => destruct c
+              | match ?x with _ => _ end = _ => destruct x
+              end.
+  all: injection H as <- _.
+  all: try contradiction.
+  all: try (destruct Hin as [[= <- <- <-]|[]]; cbn; auto).
+  all: try (apply in_map_iff in Hin; destruct Hin as (x & [= <- <- <-] & _); cbn; auto).
+Qed.
 
 Lemma search_fold P q e : forall gs acc l,
   fold_res (search_step P q e) gs acc = Ok l ->
@@ -243,11 +235,6 @@ Proof.
     end; injection H as <-; now apply search_fold in E.
 Qed.
 
-Definition as_list_contrib (r : resp) : list entry :=
-  match r with
-  | RRaise _ | RNone => []
-  | r => match as_instances CRef r with Some l => l | None => [] end
-  end.
 
 Lemma as_list_fold P : forall bs acc l,
   fold_res (as_list_step P) bs acc = Ok l ->
@@ -274,18 +261,6 @@ Proof.
   end. injection H as <-. now apply as_list_fold in E.
 Qed.
 
-(* ------------------------------------------------------------------ T6 mixer *)
-
-(* an acceptable answer of the mixer to a read / to a write *)
-Definition volume_answer_ok (r : resp) : bool :=
-  match r with
-  | RNone | RBool _ => true
-  | RInt z => (0 <=? z) && (z <=? 100)
-  | _ => false
-  end.
-Definition mute_answer_ok (r : resp) : bool := match r with RNone | RBool _ => true | _ => false end.
-Definition write_answer_ok (r : resp) : bool := match r with RBool _ => true | _ => false end.
-Definition not_base (r : resp) : Prop := r <> RRaise KBase.
 
 Theorem mixer_bad_read_unknown f :
   (not_base (f XGetVolume AUnit) -> volume_answer_ok (f XGetVolume AUnit) = false ->
